@@ -38,6 +38,11 @@ func NumUnchoking() int {
 
 const reqQ = 250
 
+// maxRequestLength is the largest block that we are willing to send in
+// reply to a single request.  The buffer for the reply is allocated from
+// the length in the request.
+const maxRequestLength = 128 * 1024
+
 // maxPieces bounds the piece indices that we accept from a peer before we
 // know the torrent's metadata.  We limit the metadata to 128MB, and each
 // piece takes 20 bytes of metadata.
@@ -863,6 +868,9 @@ func handleMessage(peer *Peer, m protocol.Message) error {
 		maybeInterested(peer)
 	case protocol.Request:
 		if peer.Info == nil || peer.amUnchoking == 0 {
+			return reject(peer, m.Index, m.Begin, m.Length)
+		}
+		if m.Length > maxRequestLength {
 			return reject(peer, m.Index, m.Begin, m.Length)
 		}
 		if len(peer.requested) >= reqQ {
